@@ -19,15 +19,21 @@
 (* aborted worker - which is CallerCancel(g): it must not release the count, the task goes   *)
 (* on.  C41 is about the tasks: the waiter may get through only when none is running.        *)
 (*                                                                                      *)
+(* A task leaves by return or by panic (exitk, chosen when its work ends): the guard is    *)
+(* dropped on either path - during a panic by the unwinding - and must release AND wake.   *)
+(*                                                                                      *)
 (* Deviation selects deliberately wrong designs (used to show the checks are not        *)
 (* vacuous): "swap_drop" notifies before releasing the count, "arm_after_check" creates *)
 (* the `Notified` only after reading the count, "guard_in_caller" lets the caller own the  *)
-(* guard so that cancelling the caller releases the count while the task still runs.      *)
+(* guard so that cancelling the caller releases the count while the task still runs,      *)
+(* "no_wake_on_panic" releases the count but skips notify_waiters when the guard is dropped *)
+(* by a panic unwind.                                                                     *)
 EXTENDS Naturals, FiniteSets
 
 CONSTANTS N,            \* number of guards
           LateGuards,   \* TRUE: guards may also be created while the waiter is running
-          Deviation     \* "none" | "swap_drop" | "arm_after_check"
+          Deviation,    \* "none" | "swap_drop" | "arm_after_check" | "guard_in_caller" | "no_wake_on_panic"
+          ExitKinds     \* how a task may end: subset of {"return", "panic"}
 
 VARIABLES gpc,    \* guard -> "none" (not created) | "held" | "mid" (between its two steps) | "done"
           wpc,    \* waiter: "W0" | "W1" | "W2" | "P" (parked) | "W3" | "Done"
@@ -35,9 +41,10 @@ VARIABLES gpc,    \* guard -> "none" (not created) | "held" | "mid" (between its
           epoch,  \* number of notify_waiters calls so far
           armed,  \* epoch captured by the waiter's current Notified future (-1 coded as 0 with flag)
           running,   \* guards whose task's blocking work is in flight
-          cancelled  \* guards whose caller has gone away
+          cancelled, \* guards whose caller has gone away
+          exitk      \* guard -> "none" | "return" | "panic": how its task ended
 
-vars == <<gpc, wpc, count, epoch, armed, running, cancelled>>
+vars == <<gpc, wpc, count, epoch, armed, running, cancelled, exitk>>
 Guards == 1..N
 NotArmed == 1000000   \* "no Notified future yet": never below epoch
 
@@ -45,11 +52,12 @@ TypeOK == /\ gpc \in [Guards -> {"none", "held", "mid", "done"}]
           /\ wpc \in {"W0", "W1", "W2", "P", "W3", "Done"}
           /\ count \in 0..N /\ epoch \in 0..N /\ armed \in (0..N) \cup {NotArmed}
           /\ running \subseteq Guards /\ cancelled \subseteq Guards
+          /\ exitk \in [Guards -> {"none", "return", "panic"}]
 
 Init == /\ gpc \in IF LateGuards THEN [Guards -> {"none", "held"}] ELSE {[g \in Guards |-> "held"]}
         /\ count = Cardinality({g \in Guards : gpc[g] = "held"})
         /\ wpc = "W0" /\ epoch = 0 /\ armed = NotArmed
-        /\ running = {g \in Guards : gpc[g] = "held"} /\ cancelled = {}
+        /\ running = {g \in Guards : gpc[g] = "held"} /\ cancelled = {} /\ exitk = [g \in Guards |-> "none"]
 
 \* effect of the two primitive guard operations
 Release == count' = count - 1 /\ UNCHANGED <<epoch, wpc>>
@@ -58,40 +66,44 @@ Wake    == epoch' = epoch + 1 /\ wpc' = (IF wpc = "P" THEN "W2" ELSE wpc) /\ UNC
 Create(g) == /\ LateGuards /\ gpc[g] = "none" /\ wpc # "Done"
              /\ gpc' = [gpc EXCEPT ![g] = "held"] /\ count' = count + 1
              /\ running' = running \cup {g}
-             /\ UNCHANGED <<wpc, epoch, armed, cancelled>>
-\* the task's blocking work is over and its guard starts to drop
-G1(g) == /\ gpc[g] = "held" /\ gpc' = [gpc EXCEPT ![g] = "mid"]
-         /\ IF Deviation = "swap_drop" THEN Wake ELSE Release
-         /\ running' = running \ {g}
-         /\ UNCHANGED <<armed, cancelled>>
+             /\ UNCHANGED <<wpc, epoch, armed, cancelled, exitk>>
+\* the task's blocking work is over - it returns or it panics - and its guard starts to drop
+G1k(g, k) ==
+    /\ gpc[g] = "held" /\ gpc' = [gpc EXCEPT ![g] = "mid"]
+    /\ IF Deviation = "swap_drop" THEN Wake ELSE Release
+    /\ running' = running \ {g} /\ exitk' = [exitk EXCEPT ![g] = k]
+    /\ UNCHANGED <<armed, cancelled>>
+G1(g) == \E k \in ExitKinds : G1k(g, k)
 G2(g) == /\ gpc[g] = "mid" /\ gpc' = [gpc EXCEPT ![g] = "done"]
-         /\ IF Deviation = "swap_drop" THEN Release ELSE Wake
-         /\ UNCHANGED <<armed, running, cancelled>>
+         /\ IF Deviation = "swap_drop" THEN Release
+            ELSE IF Deviation = "no_wake_on_panic" /\ exitk[g] = "panic" THEN UNCHANGED <<count, epoch, wpc>>
+            ELSE Wake
+         /\ UNCHANGED <<armed, running, cancelled, exitk>>
 \* the caller's future is dropped while its task may still be running: nothing may change for the waiter
 CallerCancel(g) ==
     /\ gpc[g] # "none" /\ g \notin cancelled /\ cancelled' = cancelled \cup {g}
     /\ IF Deviation = "guard_in_caller" /\ gpc[g] = "held"
        THEN /\ gpc' = [gpc EXCEPT ![g] = "mid"] /\ Release          \* the guard dies with the caller, the task runs on
        ELSE UNCHANGED <<gpc, count, epoch, wpc>>
-    /\ UNCHANGED <<armed, running>>
+    /\ UNCHANGED <<armed, running, exitk>>
 \* (guard_in_caller only) the orphaned task ends
 TaskEnd(g) == /\ Deviation = "guard_in_caller" /\ g \in running /\ gpc[g] # "held"
-              /\ running' = running \ {g} /\ UNCHANGED <<gpc, wpc, count, epoch, armed, cancelled>>
+              /\ running' = running \ {g} /\ UNCHANGED <<gpc, wpc, count, epoch, armed, cancelled, exitk>>
 
 W0 == /\ wpc = "W0" /\ wpc' = "W1"
       /\ armed' = (IF Deviation = "arm_after_check" THEN armed ELSE epoch)
-      /\ UNCHANGED <<gpc, count, epoch, running, cancelled>>
+      /\ UNCHANGED <<gpc, count, epoch, running, cancelled, exitk>>
 W1 == /\ wpc = "W1" /\ wpc' = (IF count > 0 THEN "W2" ELSE "Done")
-      /\ UNCHANGED <<gpc, count, epoch, armed, running, cancelled>>
+      /\ UNCHANGED <<gpc, count, epoch, armed, running, cancelled, exitk>>
 W2 == /\ wpc = "W2"
       /\ IF Deviation = "arm_after_check" /\ armed = NotArmed
             THEN armed' = epoch /\ wpc' = "P"            \* future created here: nothing to receive yet
             ELSE /\ wpc' = (IF epoch > armed THEN "W3" ELSE "P")
                  /\ UNCHANGED armed
-      /\ UNCHANGED <<gpc, count, epoch, running, cancelled>>
+      /\ UNCHANGED <<gpc, count, epoch, running, cancelled, exitk>>
 W3 == /\ wpc = "W3" /\ wpc' = "W1"
       /\ armed' = (IF Deviation = "arm_after_check" THEN NotArmed ELSE epoch)
-      /\ UNCHANGED <<gpc, count, epoch, running, cancelled>>
+      /\ UNCHANGED <<gpc, count, epoch, running, cancelled, exitk>>
 
 WNext == W0 \/ W1 \/ W2 \/ W3
 GNext == \E g \in Guards : Create(g) \/ G1(g) \/ G2(g) \/ CallerCancel(g) \/ TaskEnd(g)
